@@ -70,3 +70,9 @@ Proof. exact wrong_order_refuted. Qed.
 Theorem C20_right_abandon_order_witness :
   b_ctx (c_cur (arun true true h_retry)) = CNext /\ b_w (c_cur (arun true true h_retry)) = Done OkMsg /\ c_exn (arun true true h_retry) = 0.
 Proof. exact right_order_witness. Qed.
+
+(* a reply that overtakes the end of the send (the echo of the previous frame was lost, the send is being retried): the awaited packet, repeats
+   of it and unrelated packets arrive BEFORE the role coroutine reaches its await; when it does, the wait ends at once with that packet *)
+Theorem C20_early_match_not_lost : forall hst others, (forall e, In e others -> e = EOther \/ e = EMatch) ->
+  b_w (fst (run true hst [EMatch :: others; [EStart]])) = Done OkMsg /\ b_ctx (fst (run true hst [EMatch :: others; [EStart]])) = CNext.
+Proof. exact early_match_not_lost. Qed.
